@@ -4,6 +4,7 @@
 From Coq Require Import List ZArith Bool Arith QArith Qcanon.
 From PV Require Import Base.Index Np.Array Model.Sparse Model.Harness Model.C03Ops.
 Import ListNotations.
+Local Open Scope nat_scope.
 
 Section Canon.
 Context {V : Type} (v0 : V) (isz : V -> bool).
@@ -17,6 +18,16 @@ Definition all_same_sparse (l : list (sparse Z)) : bool :=
   match l with
   | [] => true
   | X :: r => forallb (wf_spb zisz) l && forallb (sp_canon_eqb X) r
+  end.
+(* the same comparison without expanding the shape (used when the shape is large): both well-formed, same shape,
+   same number of entries, and every entry of X is an entry of Y — by canon_unique that is equality up to order *)
+Definition sp_perm_eqb (X Y : sparse Z) : bool :=
+  nvec_eqb (sshape X) (sshape Y) && Nat.eqb (nnz X) (nnz Y) &&
+  forallb (fun e => (zden_sp Y (fst e) =? snd e)%Z) (entries X).
+Definition all_same_sparse_e (l : list (sparse Z)) : bool :=
+  match l with
+  | [] => true
+  | X :: r => forallb (wf_spb zisz) l && forallb (sp_perm_eqb X) r
   end.
 Definition all_same_dense (l : list (dense Z)) : bool :=
   match l with [] => true | X :: r => forallb (@wf_denseb Z) l && forallb (dense_eqb X) r end.
